@@ -476,6 +476,9 @@ def _eval_roundtrip(case, ctx):
     with np.errstate(all="ignore"):
         chi0 = float(g.calc_chi2()) if edges else 0.0
     path = os.path.join(ctx["tmp"], "g.g2o")
+    # history carried by every case: the path already holds an older, unrelated export (the new export replaces it completely)
+    with open(path, "w") as f:
+        f.write(FOREIGN)
     cur = g
     ops = 0
     parsed = 0
